@@ -7,14 +7,15 @@ open UtilModel
 
 /-- events outside calls, other than `advance`: at most a removal timer's callback -/
 theorem phase_other (s s' : St) (e : Ev) (m : M6o) (hG : G6 s) (hP : Phase s m) (hs : step s e = some s')
-    (hce : e.isCallEv = false) (hadv : e ≠ .advance) : Phase s' m := by
+    (hce : e.isCallEv = false) (hadv : e ≠ .advance ∧ e ≠ .cancelroot) : Phase s' m := by
   obtain ⟨_, hc, _⟩ := step_frame s s' e hs hce
   have hr := (step_refines s s' e hG.r hs).1
   apply phase_exp s s' m hc _ hP
   rw [hr]
   cases e with
   | timerRemove k => exact exp_expire _ k
-  | advance => exact absurd rfl hadv
+  | advance => exact absurd rfl hadv.1
+  | cancelroot => exact absurd rfl hadv.2
   | exec id => simp [Ev.isCallEv] at hce
   | config c => simp [Ev.isCallEv] at hce
   | _ => exact Exp.refl _
@@ -78,7 +79,8 @@ theorem phase_exec (s s' : St) (id : Nat) (m : M6o) (hG : G6 s) (hP : Phase s m)
     simp only [specEv, hp] at hr
     obtain ⟨cs, res, hmem, hso⟩ := hout id op rfl hp
     simp at hs
-    have hcalls : s'.calls = s.calls.map fun c => if c = .invoked id op then .done id (execOp s op).2.1 (execOp s op).2.2 else c := by
+    have hcalls : s'.calls = s.calls.map fun c => if c = .invoked id op then
+        .done id (execOp (preOp s op) op).2.1 (execOp (preOp s op) op).2.2 else c := by
       subst hs; rfl
     cases hP with
     | rest _ hc _ => rw [hc] at hp; simp [pendingOp] at hp
